@@ -22,6 +22,7 @@ type c01Cfg struct {
 	IDs      bool   `json:"ids"`
 	Base     string `json:"base"` // "" | /base | /base/
 	NBack    int    `json:"n_backends"`
+	Features bool   `json:"features"` // breaker, limiter, active and passive checks enabled (thresholds far away): transparency must not depend on them
 	Batch    int    `json:"batch"`
 	Of       int    `json:"of"`
 }
@@ -313,7 +314,7 @@ func init() {
 								continue // quick: half of the configuration product
 							}
 							for b := 0; b < of; b++ {
-								cs = append(cs, c01Cfg{Strategy: st, Chain: chain, IDs: ids, Base: base, NBack: 1 + (si+bi)%3, Batch: b, Of: of})
+								cs = append(cs, c01Cfg{Strategy: st, Chain: chain, IDs: ids, Base: base, NBack: 1 + (si+bi)%3, Features: (si+bi+b)%2 == 0 != ids, Batch: b, Of: of})
 							}
 						}
 					}
@@ -335,6 +336,13 @@ func init() {
 			cfg.Logging.RequestID.Enabled = c.IDs
 			cfg.Logging.Trace.Enabled = c.IDs
 			cfg.Server.Timeouts = config.TimeoutConfig{Read: 60, Write: 60, Idle: 120, BackendRead: 60}
+			if c.Features {
+				cfg.CircuitBreaker = config.CircuitBreakerConfig{Enabled: true, FailureThreshold: 1000000, SuccessThreshold: 1, IntervalSeconds: 3600, TimeoutSeconds: 60}
+				cfg.RateLimit = config.RateLimitConfig{Enabled: true, MaxTokens: 1000000, RefillRate: 1}
+				cfg.HealthChecks.Passive = config.PassiveHealthCheckConfig{Enabled: true, UnhealthyThreshold: 1000000, UnhealthyTimeout: 30}
+				cfg.HealthChecks.Active = config.ActiveHealthCheckConfig{Enabled: true, Interval: 10, Timeout: 2, Path: "/health"}
+				cfg.LoadBalancer.WebSocketPool = config.WebSocketPoolConfig{Enabled: true, MaxIdle: 2, MaxActive: 4, IdleTimeoutSeconds: 60}
+			}
 			sys, err := startSys(cfg, bes, true)
 			if err != nil {
 				o.Inconcl("startSys: %v", err)
@@ -345,7 +353,7 @@ func init() {
 			if c.IDs {
 				idHdr["x-request-id"], idHdr["x-trace-id"] = true, true
 			}
-			cname := fmt.Sprintf("%s chain=%q ids=%v base=%q", c.Strategy, c.Chain, c.IDs, c.Base)
+			cname := fmt.Sprintf("%s chain=%q ids=%v base=%q features=%v", c.Strategy, c.Chain, c.IDs, c.Base, c.Features)
 			xs := c01Exchanges(e, c)
 			for xi, x := range xs {
 				xid := fmt.Sprintf("x%d", xi)
